@@ -11,6 +11,7 @@ import (
 	"errors"
 	"fmt"
 	"io"
+	"sort"
 	"strings"
 	"sync"
 	"testing"
@@ -151,7 +152,9 @@ func TestVerif_C14(t *testing.T) {
 		if err != nil {
 			t.Fatalf("inventory: %v", err)
 		}
-		hs := &hostnameService{inUse: map[string]dtypes.DeploymentID{}, requests: make(chan reserveRequest), releases: make(chan []string), lc: lifecycle.New()}
+		heldHost := "held.example.com" // reserved by another deployment throughout
+		heldBy := dtypes.DeploymentID{Owner: owner.String(), DSeq: 888}
+		hs := &hostnameService{inUse: map[string]dtypes.DeploymentID{heldHost: heldBy}, requests: make(chan reserveRequest), releases: make(chan []string), lc: lifecycle.New()}
 		hsQuery := make(chan func(), 4)
 		hsStop := make(chan struct{})
 		defer close(hsStop)
@@ -295,8 +298,18 @@ func TestVerif_C14(t *testing.T) {
 					continue
 				}
 				latestVer++
-				m, _ := c14Manifest(latestVer, hosts)
-				note("manifest(v%d)", latestVer)
+				// each version may name another set of hostnames; an update may also name one that
+				// belongs to a different deployment
+				vhosts := hosts
+				if latestVer > 0 || rapid.Bool().Draw(t, "firstHostsVary") {
+					pal := []string{"app.example.com", "b.example.com", "c.example.com"}
+					if latestVer > 0 {
+						pal = append(pal, heldHost)
+					}
+					vhosts = rapid.SliceOfNDistinct(rapid.SampledFrom(pal), 1, 2, func(x string) string { return x }).Draw(t, "hosts")
+				}
+				m, _ := c14Manifest(latestVer, vhosts)
+				note("manifest(v%d,hosts=%v)", latestVer, vhosts)
 				if outstanding {
 					interesting = true
 				}
@@ -478,28 +491,37 @@ func TestVerif_C14(t *testing.T) {
 				}
 				time.Sleep(500 * time.Microsecond)
 			}
-			res := make(chan error, 1)
-			other := dtypes.DeploymentID{Owner: owner.String(), DSeq: 777}
-			hsQuery <- func() {
-				ch := make(chan error, 1)
-				hs.doRequest(reserveRequest{hostnames: hosts, result: ch, doReserve: false, dID: other})
-				res <- <-ch
+			// hostnames are released in a deferred call of the manager goroutine; poll briefly.
+			// Nothing may stay reserved for the lease's deployment, whatever the manifests named,
+			// and what another deployment holds stays with it.
+			leaked := func() (mine []string, heldOK bool) {
+				res := make(chan struct{})
+				hsQuery <- func() {
+					for name, d := range hs.inUse {
+						if d.Equals(lid.DeploymentID()) {
+							mine = append(mine, name)
+						}
+					}
+					heldOK = hs.inUse[heldHost].Equals(heldBy)
+					close(res)
+				}
+				<-res
+				sort.Strings(mine)
+				return
 			}
-			// hostnames are released in a deferred call of the manager goroutine; poll briefly
 			dl = time.Now().Add(c14Wait)
 			for {
-				if err := <-res; err == nil {
+				mine, heldOK := leaked()
+				if !heldOK {
+					fail("c14-foreign-hostname-released", "tearing down the lease released %s, which is reserved by another deployment", heldHost)
+				}
+				if len(mine) == 0 {
 					break
 				}
 				if time.Now().After(dl) {
-					fail("c14-hostnames-not-released", "the lease was closed and torn down but its hostnames are still reserved")
+					fail("c14-hostnames-not-released", "the lease was closed and torn down but hostnames %v are still reserved for its deployment", mine)
 				}
 				time.Sleep(time.Millisecond)
-				hsQuery <- func() {
-					ch := make(chan error, 1)
-					hs.doRequest(reserveRequest{hostnames: hosts, result: ch, doReserve: false, dID: other})
-					res <- <-ch
-				}
 			}
 		}
 		if !closeDelivered && !shutdown && !deployFailed && !hostFailed && latestVer >= 0 {
